@@ -13,7 +13,10 @@ RULE = (
     "code bases of 2-12 files whose contents are drawn from a pool of 8 byte strings (empty, differing only in the last "
     "byte, differing only in length, CR vs LF, non-UTF-8 bytes), so equivalence classes of every size occur, with twins "
     "that are excluded by pattern, outside the root, non-source files, fixed-form Fortran files, or symbolic links (to files inside and outside); "
-    "the code base is sometimes given further directories that overlap, repeat or lie beside the first. "
+    "the code base is sometimes given further directories that overlap, repeat or lie beside the first; "
+    "one case in four has a history of 1-2 rewrite steps (1-3 files rewritten in place, mostly with other bytes of the same "
+    "length, modification time set with os.utime to the old value, to another instant of the same second, or seconds later) "
+    "and the same paths are reported again in the same process after every step. "
     "Oracle: direct byte-wise partition of the non-symlink members of list(codebase); the groups of size >= 2 must equal "
     "the reported groups exactly as a set of sets (in-process report.find_duplicates and the Duplicates section of "
     "`codebasin -R duplicates`). Non-trivial: >=2 groups or one of size >=3, together with a near-duplicate and an "
@@ -24,8 +27,51 @@ ASSUMPTIONS = ["code-base membership is taken from CodeBase itself (C09/C15 chec
 SIG_FIXED_FORM = "cli:fixed-form-fortran-file-aborts-every-report"
 
 POOL = [b"", b"int a;\n", b"int a;\r", b"int a;\n\n", b"int a;", b"int b;\n", b"\xff\xfe\x00bin\n", b"int a;\n/* x */\n", b"\xff\xfe\x00bin\r"]
+# pool members that share their length with another member (7 bytes): a rewrite among them keeps the size
+SAME_LEN_IDX = [i for i, b in enumerate(POOL) if sum(len(c) == len(b) for c in POOL) >= 2]
 DIRS = ["", "src", "src/a", "lib", "excl", "../ext"]
 EXTS = [".c", ".h", ".cpp", ".f90", ".txt", ".S", ".dat"]
+
+
+MTIME_MODES = ["pin", "same-second", "later"]
+
+
+def history_step(names):
+    """One rewrite step: 1-3 files get a new content (mostly one of the same length as some pool member of
+    equal size, so that size alone does not reveal the change) and a modification time derived from the old one."""
+    from hypothesis import strategies as st
+
+    @st.composite
+    def step(draw):
+        writes = {}
+        for k in draw(st.lists(st.sampled_from(names), min_size=1, max_size=3, unique=True)):
+            writes[k] = draw(st.sampled_from(SAME_LEN_IDX + SAME_LEN_IDX + list(range(len(POOL)))))
+        return {"writes": writes, "mtime": draw(st.sampled_from(MTIME_MODES))}
+
+    return step()
+
+
+def apply_step(root, step, current, stage):
+    """Rewrite the files of one history step; returns True when some file got other bytes of the same length
+    while its modification time stayed within the same second (the shape a size+mtime shortcut gets wrong)."""
+    hidden = False
+    for k, v in step["writes"].items():
+        p = os.path.join(root, k)
+        old = os.stat(p)
+        with open(p, "wb") as f:
+            f.write(POOL[v])
+        sec = old.st_mtime_ns // 1_000_000_000
+        if step["mtime"] == "pin":
+            new_ns = old.st_mtime_ns
+        elif step["mtime"] == "same-second":
+            new_ns = sec * 1_000_000_000 + (old.st_mtime_ns % 1_000_000_000 + 1_000_003 * stage) % 1_000_000_000
+        else:
+            new_ns = old.st_mtime_ns + 2_000_000_000 * stage
+        os.utime(p, ns=(new_ns, new_ns))
+        if POOL[v] != POOL[current[k]] and len(POOL[v]) == len(POOL[current[k]]) and step["mtime"] != "later":
+            hidden = True
+        current[k] = v
+    return hidden
 
 
 def case_strategy():
@@ -53,7 +99,16 @@ def case_strategy():
             links = {ln: t for ln, t in links.items() if not t.endswith(os.path.basename(k0))}
         # a code base may be given several directories; they may overlap or repeat
         roots = draw(st.sampled_from([[], [], [], ["src"], ["src/a", "src"], ["."], ["lib", "src/a"], ["../ext"]]))
-        return {"files": files, "links": links, "excludes": excludes, "same_mtime": draw(st.booleans()), "roots": roots}
+        case = {"files": files, "links": links, "excludes": excludes, "same_mtime": draw(st.booleans()), "roots": roots}
+        # a history: the same paths are reported again in the same process after some files were rewritten
+        # (an editor save, a checkout of another revision), often with other bytes of the same length and
+        # a modification time that does not move, or moves only within the same second
+        history = []
+        for _ in range(draw(st.sampled_from([0, 0, 0, 0, 0, 0, 1, 2]))):
+            history.append(draw(history_step(sorted(files))))
+        if history:
+            case["history"] = history
+        return case
 
     return case()
 
@@ -83,40 +138,66 @@ def check_case(case, res: Result, cli=False):
         filecmp.clear_cache()
         # (the command-line front end knows one root directory only)
         extra_roots = [] if cli else [os.path.join(root, r) for r in case.get("roots", []) if os.path.isdir(os.path.join(root, r))]
-        cb = CodeBase(root, *extra_roots, exclude_patterns=list(case["excludes"]))
-        listed = list(cb)
-        if len(listed) != len(set(listed)):
-            vs.append(make_violation("enumeration:file-yielded-twice", case, "each member once", sorted(os.path.relpath(p, root) for p in listed if listed.count(p) > 1)))
-        members = [p for p in cb if not os.path.islink(p)]
-        by = {}
-        for p in members:
-            with open(p, "rb") as f:
-                by.setdefault(f.read(), set()).add(os.path.relpath(p, root))
-        expected = {frozenset(s) for s in by.values() if len(s) >= 2}
-        try:
-            got_list = report.find_duplicates(cb)
-        except Exception as e:
-            return [make_violation(f"exception:{type(e).__name__}", case, "report succeeds", f"{type(e).__name__}: {e}")]
-        got = [frozenset(os.path.relpath(str(p), root) for p in s) for s in got_list]
-        if len(got) != len(set(got)) or set(got) != expected:
-            lost = expected - set(got)
-            extra = set(got) - expected
-            kind = "group-missing" if lost and not extra else "group-invented" if extra and not lost else "groups-differ"
-            vs.append(make_violation(f"api:{kind}", case, sorted(sorted(s) for s in expected), sorted(sorted(s) for s in got)))
-        # the printed report, written to a stream of the caller's choice
         import contextlib
         import io
 
-        buf, leaked = io.StringIO(), io.StringIO()
-        try:
-            with contextlib.redirect_stdout(leaked):
-                report.duplicates(cb, stream=buf)
-        except Exception as e:
-            vs.append(make_violation(f"report:exception:{type(e).__name__}", case, "report printed", f"{type(e).__name__}: {e}"))
-        else:
-            gotp = {frozenset(g) for g in parse_groups(buf.getvalue(), root)}
-            if gotp != expected or leaked.getvalue().strip():
-                vs.append(make_violation("report:stream-content-differs", case, sorted(sorted(s) for s in expected), {"in stream": sorted(sorted(s) for s in gotp), "on stdout instead": leaked.getvalue()[:200]}))
+        current = dict(case["files"])
+        history = case.get("history", [])
+        hidden_rewrites = twin_made = 0
+        expected = set()
+        for stage in range(len(history) + 1):
+            # stage 0 is the tree as written; every later stage rewrites some files in place and reports
+            # the same paths again, in the same process
+            pre = "" if stage == 0 else "history:"
+            if stage:
+                before = expected
+                hidden = apply_step(root, history[stage - 1], current, stage)
+                filecmp.clear_cache()
+            cb = CodeBase(root, *extra_roots, exclude_patterns=list(case["excludes"]))
+            listed = list(cb)
+            if len(listed) != len(set(listed)):
+                vs.append(make_violation("enumeration:file-yielded-twice", case, "each member once", sorted(os.path.relpath(p, root) for p in listed if listed.count(p) > 1)))
+            members = [p for p in cb if not os.path.islink(p)]
+            by = {}
+            for p in members:
+                with open(p, "rb") as f:
+                    by.setdefault(f.read(), set()).add(os.path.relpath(p, root))
+            expected = {frozenset(s) for s in by.values() if len(s) >= 2}
+            if stage == 0:
+                expected0 = expected
+            if stage and hidden:
+                hidden_rewrites += 1
+                # a rewritten file became the twin of a file it differed from before (or left its twins)
+                twin_made += expected != before
+            try:
+                got_list = report.find_duplicates(cb)
+            except Exception as e:
+                return [make_violation(f"{pre}exception:{type(e).__name__}", case, "report succeeds", f"{type(e).__name__}: {e}")]
+            got = [frozenset(os.path.relpath(str(p), root) for p in s) for s in got_list]
+            if len(got) != len(set(got)) or set(got) != expected:
+                lost = expected - set(got)
+                extra = set(got) - expected
+                kind = "group-missing" if lost and not extra else "group-invented" if extra and not lost else "groups-differ"
+                vs.append(make_violation(f"{pre}api:{kind}", case, {"report no.": stage + 1, "groups": sorted(sorted(s) for s in expected)}, sorted(sorted(s) for s in got)))
+            # the printed report, written to a stream of the caller's choice
+            buf, leaked = io.StringIO(), io.StringIO()
+            try:
+                with contextlib.redirect_stdout(leaked):
+                    report.duplicates(cb, stream=buf)
+            except Exception as e:
+                vs.append(make_violation(f"{pre}report:exception:{type(e).__name__}", case, "report printed", f"{type(e).__name__}: {e}"))
+            else:
+                gotp = {frozenset(g) for g in parse_groups(buf.getvalue(), root)}
+                if gotp != expected or leaked.getvalue().strip():
+                    vs.append(make_violation(f"{pre}report:stream-content-differs", case, {"report no.": stage + 1, "groups": sorted(sorted(s) for s in expected)}, {"in stream": sorted(sorted(s) for s in gotp), "on stdout instead": leaked.getvalue()[:200]}))
+            if vs and stage:
+                break
+        if history:
+            res.labels["reported-again-after-rewrite"] += 1
+        if hidden_rewrites:
+            res.labels["rewrite-same-length-same-second"] += 1
+        if twin_made:
+            res.labels["rewrite-same-length-same-second-changes-groups"] += 1
         if cli:
             with open(os.path.join(root, "db.json"), "w") as f:
                 f.write("[]")
@@ -141,8 +222,8 @@ def check_case(case, res: Result, cli=False):
         contents = [case["files"][k] for k in case["files"]]
         special = bool(case["links"]) or bool(case["excludes"]) or any(k.startswith("../") or k.endswith((".txt", ".dat")) for k in case["files"])
         near = len({1, 2, 3, 4} & set(contents)) >= 2
-        nt = (len(expected) >= 2 or any(len(s) >= 3 for s in expected)) and near and special
-        res.case(key=case, nontrivial=nt, sample={"files": {k: repr(POOL[v]) for k, v in case["files"].items()}, "links": case["links"], "excludes": case["excludes"], "expected_groups": sorted(sorted(s) for s in expected)} if nt else None, labels=[f"groups={min(len(expected),4)}", f"max-size={min(max([len(s) for s in expected] or [0]),4)}"])
+        nt = (len(expected0) >= 2 or any(len(s) >= 3 for s in expected0)) and near and special
+        res.case(key=case, nontrivial=nt, sample={"files": {k: repr(POOL[v]) for k, v in case["files"].items()}, "links": case["links"], "excludes": case["excludes"], "expected_groups": sorted(sorted(s) for s in expected0)} if nt else None, labels=[f"groups={min(len(expected0),4)}", f"max-size={min(max([len(s) for s in expected0] or [0]),4)}"])
     return vs
 
 
